@@ -2,7 +2,7 @@
 import ast
 
 from ..program import AnalysisError, src, norm, ClassInfo
-from ..util import is_name, calls_in, callee_qual, ancestors, in_handler_of, raised_class, is_subclass, cls_name
+from ..util import is_name, calls_in, callee_qual, ancestors, in_handler_of, raised_class, is_subclass, cls_name, names_in
 
 REPR_METHODS = ('__repr__', '__str__', '_m_repr')
 
@@ -263,6 +263,112 @@ def parameters_kept(ctx, modules, classes=None, methods=None):
                         why = '%s -- but the conversion applies %s' % (reason, sorted(used - allowed))
             ctx.ob(ok, u, 'parameter %s is rebound only as documented: %s' % (prm, norm(st)[:70]),
                    why if ok else ('%s changes what was given' % norm(st)[:90] if conv is None else why), node=st)
+        if u.name == '__init__':
+            n += _stores_plain(ctx, u, params)
+    return n
+
+
+# an attribute a constructor computes from a parameter instead of storing the parameter:
+# (constructor, attribute) -> (why, the only callables the computation may apply)
+STORE_CONVERSIONS = {
+    ('core.Coalesce.__init__', '_orig_kwargs'): ('a snapshot of the keyword arguments for repr', {'dict'}),
+    ('matching.Check.__init__', '_orig_kwargs'): ('a snapshot of the keyword arguments for repr', {'dict'}),
+    ('core.Inspect.__init__', 'wrapped'): ('no wrapped spec: the identity path', {'Path'}),
+    ('core.ScopeVars.__init__', '__dict__'): ('the namespace is a copy of the given mapping', {'dict'}),
+    ('core.Glommer.__init__', 'scope'): ('the base scope is a private copy inside a ChainMap', {'ChainMap', 'dict', 'pop'}),
+    ('mutation.Assign.__init__', 'op'): ('the last step of the destination path', {'items'}),
+    ('mutation.Assign.__init__', 'arg'): ('the last step of the destination path', {'items'}),
+    ('mutation.Delete.__init__', 'op'): ('the last step of the destination path', {'items'}),
+    ('mutation.Delete.__init__', 'arg'): ('the last step of the destination path', {'items'}),
+    ('core.Path.__init__', 'path_t'): ('the parts are joined into one T path, step by step', {'_t_child'}),
+    ('matching.Regex.__init__', 'match_func'): ('the bound match method of the compiled pattern', {'compile'}),
+    ('matching.Check.__init__', 'validators'): ('one value or an iterable of them, each validated', {'<nested function>', '_get_arg_val'}),
+    ('matching.Check.__init__', 'instance_of'): ('one value or an iterable of them, each validated', {'<nested function>', '_get_arg_val', 'isinstance'}),
+    ('matching.Check.__init__', 'types'): ('one value or an iterable of them, each validated', {'<nested function>', '_get_arg_val', 'isinstance'}),
+    ('streaming.First.__init__', '_first'): ('the call of boltons first() the spec stands for', {'Call', 'Spec', 'partial'}),
+}
+
+
+def _value_closure(u, e, params):
+    """the expressions a stored value is computed from: the value, and transitively whatever is
+    assigned to / accumulated into / iterated for the locals it mentions"""
+    out, work, seen = [e], [e], set()
+    nodes = list(u.own_nodes())
+    while work:
+        x = work.pop()
+        for nm in sorted(names_in(x) - seen):
+            seen.add(nm)
+            for st in nodes:
+                vals = []
+                if isinstance(st, ast.Assign):
+                    for t in st.targets:
+                        if is_name(t, nm) and nm not in params:
+                            vals.append(st.value)
+                        elif isinstance(t, ast.Tuple):
+                            for i, el in enumerate(t.elts):
+                                if is_name(el, nm):
+                                    vals.append(st.value.elts[i] if isinstance(st.value, ast.Tuple) and len(st.value.elts) == len(t.elts)
+                                                else st.value)
+                elif isinstance(st, ast.AugAssign) and is_name(st.target, nm):
+                    vals.append(st.value)
+                elif isinstance(st, (ast.For, ast.comprehension)) and nm in names_in(st.target):
+                    vals.append(st.iter)
+                elif isinstance(st, ast.Expr) and isinstance(st.value, ast.Call) and isinstance(st.value.func, ast.Attribute) \
+                        and is_name(st.value.func.value, nm) and nm not in params:
+                    vals.append(st.value)
+                for v in vals:
+                    if not any(v is o for o in out):
+                        out.append(v)
+                        work.append(v)
+    return out
+
+
+def _stores_plain(ctx, u, params):
+    """what ``__init__`` stores from a parameter is the parameter: ``self.a = p``, a keyword taken
+    with ``kwargs.pop(name, default)``, or a display / conditional of those -- never a copy, a
+    ``p or D`` fallback or another recomputation (directly or through locals), unless the
+    conversion is enumerated"""
+    selfn = u.params[0]
+    n = 0
+    for st in u.own_nodes():
+        if not isinstance(st, ast.Assign):
+            continue
+        for t in st.targets:
+            elts = t.elts if isinstance(t, ast.Tuple) else [t]
+            for i, x in enumerate(elts):
+                if not (isinstance(x, ast.Attribute) and is_name(x.value, selfn)):
+                    continue
+                v = st.value
+                if isinstance(t, ast.Tuple) and isinstance(v, ast.Tuple) and len(v.elts) == len(elts):
+                    v = v.elts[i]
+                exprs = _value_closure(u, v, params)
+                if not any(names_in(e) & params for e in exprs):
+                    continue
+                n += 1
+                conv = STORE_CONVERSIONS.get((u.qualname, x.attr))
+                allowed = conv[1] if conv else set()
+                bad = []
+                for c in (c for e in exprs for c in ast.walk(e)):
+                    if isinstance(c, ast.Call):
+                        f = c.func
+                        nm = f.id if isinstance(f, ast.Name) else f.attr if isinstance(f, ast.Attribute) else '?'
+                        takes_kw = isinstance(f, ast.Attribute) and f.attr in ('pop', 'get') and is_name(f.value) \
+                            and f.value.id in params and f.value.id == u.kwarg
+                        # only a call that is handed (or invoked on) something computed from the arguments converts them
+                        operands = list(c.args) + [k.value for k in c.keywords] + ([f.value] if isinstance(f, ast.Attribute) else [])
+                        involved = any(names_in(o) & (params | set(u.locals)) for o in operands)
+                        if is_name(f) and any(ch.name == f.id for ch in u.children):
+                            nm = '<nested function>'
+                        if involved and not takes_kw and nm not in allowed:
+                            bad.append('%s()' % nm)
+                    elif isinstance(c, ast.BoolOp) and is_name(c.values[0]) and (u.qualname, c.values[0].id) in TRUTH_TESTED_DEFAULTS:
+                        pass    # confirmed by reading: the falsy argument and its replacement mean the same
+                    elif isinstance(c, ast.BoolOp):
+                        bad.append("'%s' fallback" % ('or' if isinstance(c.op, ast.Or) else 'and'))
+                ok = not bad
+                ctx.ob(ok, u, '%s.%s is stored as given: %s' % (u.cls.name, x.attr, norm(st)[:70]),
+                       (conv[0] if conv else 'the argument itself') if ok else
+                       'what is stored is not the argument: %s is applied to it' % ', '.join(sorted(set(bad))), node=st)
     return n
 
 
@@ -356,4 +462,124 @@ def wrappers_forward_their_parameters(ctx, quals):
         for prm in params:
             n += 1
             ctx.ob(prm in used, u, '%s passes %s on' % (q, prm), '' if prm in used else 'accepted and ignored', node=calls[0])
+    return n
+
+
+# optional arguments for which None is a meaningful value: "not given" is the private sentinel.
+# (unit, keyword) -> why None must stay distinguishable from an absent argument
+NONE_IS_A_VALUE = {
+    ('core.Coalesce.__init__', 'default'): 'default=None is the classic "give me None when nothing is found"',
+    ('core.Coalesce.__init__', 'skip'): 'skip=None skips None results',
+    ('matching.Match.__init__', 'default'): 'a failed match may default to None',
+    ('matching._Bool.__init__', 'default'): 'And / Or / Not(..., default=None)',
+    ('matching.Optional.__init__', 'default'): 'an absent optional key may default to None',
+    ('matching.Switch.__init__', 'default'): 'no case matched: default=None',
+    ('matching.Check.__init__', 'equal_to'): 'Check(equal_to=None) compares against None',
+    ('matching.Check.__init__', 'one_of'): 'one_of=None is not iterable: a construction error, not "unset"',
+    ('matching.Check.__init__', 'type'): 'type=None is not a type: a construction error, not "unset"',
+    ('matching.Check.__init__', 'instance_of'): 'instance_of=None is not a type: a construction error, not "unset"',
+    ('streaming.Iter.chunked', 'fill'): 'chunked(n, fill=None) pads with None',
+}
+
+
+def none_is_a_value(ctx, quals=None):
+    """for an optional argument that may legitimately be None, "not given" is a private sentinel
+    (a make_sentinel() object), in the signature / the ``kwargs.pop`` default and in every identity
+    test that decides whether it was given: with None as the marker, an explicit None silently
+    becomes "no argument" (``Check(equal_to=None)`` would accept everything)"""
+    from ..util import choice_leaves
+    p = ctx.program
+    n = 0
+
+    def is_sentinel(mod, e):
+        if not isinstance(e, ast.Name):
+            return False
+        for st in mod.tree.body:
+            if isinstance(st, ast.Assign) and any(is_name(t, e.id) for t in st.targets):
+                v = st.value
+                return isinstance(v, ast.Call) and (is_name(v.func, 'make_sentinel') or is_name(v.func, 'object'))
+            if isinstance(st, ast.ImportFrom) and any((a.asname or a.name) == e.id for a in st.names):
+                return e.id.isupper() or e.id.startswith('_')     # a sentinel imported from a sibling module
+        return False
+
+    for (q, kw), why in sorted(NONE_IS_A_VALUE.items()):
+        if quals is not None and q not in quals:
+            continue
+        u = ctx.unit(q)
+        a = u.node.args
+        allp = [x.arg for x in a.posonlyargs + a.args]
+        nd = len(a.defaults)
+        dfl = dict(zip(allp[len(allp) - nd:], a.defaults)) if nd else {}
+        for k, d in zip(a.kwonlyargs, a.kw_defaults):
+            if d is not None:
+                dfl[k.arg] = d
+        defaults, local = [], None
+        if kw in dfl:
+            defaults.append(dfl[kw])
+            local = kw
+        else:
+            for c in calls_in(u):
+                f = c.func
+                if isinstance(f, ast.Attribute) and f.attr in ('pop', 'get') and is_name(f.value, u.kwarg) and c.args \
+                        and isinstance(c.args[0], ast.Constant) and c.args[0].value == kw:
+                    defaults.append(c.args[1] if len(c.args) > 1 else ast.Constant(None))
+                    par = getattr(c, 'parent', None)
+                    st = [x for x in ancestors(c) if isinstance(x, ast.stmt)]
+                    if st and isinstance(st[0], ast.Assign) and st[0].value is c and is_name(st[0].targets[0]):
+                        local = st[0].targets[0].id
+        ctx.require(defaults, 'optional argument %s of %s not found' % (kw, q))
+        n += 1
+        leaves = [l for d in defaults for l in choice_leaves(d)]
+        none_default = [l for l in leaves if isinstance(l, ast.Constant) and l.value is None]
+        ok = not none_default and any(is_sentinel(u.module, l) for l in leaves)
+        ctx.ob(ok, u, '"%s not given" is a private sentinel: %s' % (kw, ', '.join(norm(d) for d in defaults)),
+               why if ok else 'None (or a public value) marks the missing argument -- %s' % why, node=defaults[0])
+        if local is None:
+            continue
+        tests = [x for x in u.own_nodes() if isinstance(x, ast.Compare) and is_name(x.left, local) and len(x.ops) == 1
+                 and isinstance(x.ops[0], (ast.Is, ast.IsNot)) and isinstance(x.comparators[0], ast.Constant)
+                 and x.comparators[0].value is None]
+        ctx.ob(not tests, u, 'whether %s was given is never decided by comparing it with None' % kw,
+               '' if not tests else '%s -- %s' % (norm(tests[0]), why), node=tests[0] if tests else None)
+    ctx.require(n >= 1, 'no optional arguments examined')
+    return n
+
+
+def scope_keys_have_one_definition(ctx, names=None):
+    """the evaluator's scope markers (MODE, CUR_AGG, ACC_TREE, ...) are sentinel objects compared
+    by identity: every module that reads or writes ``scope[MARKER]`` must mean the same object, so
+    each marker name resolves -- through the imports -- to a single module-level definition.  A
+    module that mints its own sentinel of the same name talks to nobody (a Fold would not see the
+    reset Group makes for the buckets below it)"""
+    from ..program import GlobalVar
+    p = ctx.program
+    uses = {}
+    for u in p.package_units():
+        for x in u.own_nodes():
+            keys = []
+            if isinstance(x, ast.Subscript):
+                keys.append(x.slice)
+            elif isinstance(x, ast.Call) and isinstance(x.func, ast.Attribute) and x.func.attr in ('get', 'setdefault', 'pop') and x.args:
+                keys.append(x.args[0])
+            elif isinstance(x, ast.Compare) and len(x.ops) == 1 and isinstance(x.ops[0], (ast.In, ast.NotIn)):
+                keys.append(x.left)
+            for k in keys:
+                if not (isinstance(k, ast.Name) and k.id.isupper()):
+                    continue
+                d = p.resolve_name(u, k.id)
+                if isinstance(d, GlobalVar) and any(isinstance(v, ast.Call) and is_name(v.func, 'make_sentinel') for v in d.values):
+                    uses.setdefault(k.id, {}).setdefault(d.module.short, []).append((u, x))
+    ctx.require({'MODE', 'CUR_AGG', 'ACC_TREE', 'MIN_MODE'} <= set(uses), 'scope markers not found (%s)' % sorted(uses))
+    n = 0
+    for name, by_mod in sorted(uses.items()):
+        if names is not None and name not in names:
+            continue
+        n += 1
+        ok = len(by_mod) == 1
+        minority = min(by_mod.items(), key=lambda kv: len(kv[1]))
+        u, x = minority[1][0]
+        ctx.ob(ok, u, 'scope marker %s is one object package-wide (defined in %s, used at %d sites)'
+               % (name, sorted(by_mod), sum(len(v) for v in by_mod.values())),
+               '' if ok else '%s here is the sentinel minted in %s; elsewhere it is the one from %s: the two sides never meet'
+               % (norm(x)[:60], minority[0], sorted(set(by_mod) - {minority[0]})), node=x)
     return n
